@@ -56,6 +56,8 @@ OUT_FREE = {'std::copy': [2], 'std::copy_n': [2], 'std::move_backward': [2], 'st
             'std::transform': [2], 'std::merge': [4], 'std::unique': [0], 'std::rotate': [0], 'std::exchange': [0], 'std::getline': [0, 1],
             'memcpy': [0], 'memmove': [0], 'memset': [0], 'std::uninitialized_copy': [2], 'std::partial_sum': [2], 'std::nth_element': [0],
             'std::inplace_merge': [0], 'std::generate': [0], 'std::replace': [0], 'std::remove': [0], 'std::remove_if': [0], 'std::tie_assign': [0]}
+RET_IS_OUTPUT = {'std::copy': 2, 'std::copy_n': 2, 'std::move': 2, 'std::move_backward': 2, 'std::copy_backward': 2, 'std::transform': 2, 'std::merge': 4,
+                 'std::uninitialized_copy': 2, 'std::partial_sum': 2, 'std::fill_n': 0}
 REF_OUT = {'std::swap', 'std::exchange', 'std::getline', 'std::iter_swap'}
 NORETURN_FREE = {'__assert_fail', 'abort', 'std::terminate', 'exit', '__builtin_unreachable', '__builtin_trap', 'std::abort'}
 GLOBAL_FREE = {'rand', 'srand', 'printf', 'puts', 'fprintf', 'malloc', 'free', 'realloc', 'calloc', 'setlocale', 'time', 'clock', 'omp_set_num_threads'}
@@ -356,6 +358,11 @@ class Effects:
                     out.add(self._collapse(('ptr', r, '*')))
             return out
         if c == 'CallExpr':
+            # the output algorithms return an iterator into the range they wrote: it points where their output argument points
+            ct_ = nd.get('ct', '')
+            a_ = nd.get('args', [])
+            if ct_ in RET_IS_OUTPUT and RET_IS_OUTPUT[ct_] < len(a_) and (ct_ != 'std::move' or len(a_) == 3):
+                return self.P(fn, a_[RET_IS_OUTPUT[ct_]], depth + 1)
             out = set()
             for a in nd.get('args', []):
                 out |= self.P(fn, a, depth + 1)
